@@ -221,6 +221,8 @@ def judge_c05(ctx, idx, op, impl, mi, ms, reason):
         ctx.count("senc_" + impl.split(" ")[0])
         if mi == "err -" and impl != "err -":
             f.append(Finding("property", idx, "octets of a message that cannot be represented on the wire reached the stream (or the call reported success)", expected="err -", observed=impl[:200], name="C05_codec_nothing_written"))
+        elif mi.startswith("ok ") and impl.startswith("ok") and impl != "ok " + ms:
+            f.append(Finding("property", idx, "the stream codec reported success but the stream did not receive exactly the message's frame", expected="ok " + ms[:120], observed=impl[:200], name="C05_ok_is_complete"))
     else:
         ctx.count("op_" + op[0] + "_" + impl.split(" ")[0])
     return f
